@@ -147,10 +147,15 @@ pub fn gen_program(seed: u64, prof: &TProfile) -> Program {
         2 + k.below(3) as usize
     };
     let mut next_id = 0u128;
-    let id_fmt = k.below(3);
+    let id_fmt = k.below(4);
     let mut fresh = |w: &mut Rng| {
         next_id += 1;
         match id_fmt {
+            // pairs of ids with the same 128 bits, one a UUID and one a ULID (0 = nil included)
+            3 => IdS {
+                ulid: next_id % 2 == 0,
+                v: (next_id - 1) / 2,
+            },
             0 => IdS {
                 ulid: false,
                 v: next_id,
@@ -238,9 +243,14 @@ pub fn gen_program(seed: u64, prof: &TProfile) -> Program {
                 }
                 1 => Op::Match {
                     qty: 1 + w.below(30),
-                    taker: IdS {
-                        ulid: false,
-                        v: 0x7a6b_0000 + (t as u128) * 16 + w.below(16) as u128,
+                    // now and then the taker carries the id of an order of this program
+                    taker: if w.chance(1, 12) && !pool.is_empty() {
+                        *w.pick(&pool)
+                    } else {
+                        IdS {
+                            ulid: false,
+                            v: 0x7a6b_0000 + (t as u128) * 16 + w.below(16) as u128,
+                        }
                     },
                 },
                 2 => Op::Upd(UpdSpec {
